@@ -671,6 +671,25 @@ def rule_r7(ctx):
             rr.fail("C03-R7|driver|root-slot", f"{fi.where()} line {root[0].lineno}: {bad}", where=fi.where(), what="root")
         else:
             rr.ok("root", sample={"rule": "C03-R7", "root_slot": ast.unparse(root[0].args[0]), "precedence": rp})
+    # every yielded child goes through its generator: no path of the driver handles a child itself
+    rr.instances += 1
+    from .c06 import _stmt_paths
+
+    bypass = None
+    for t in ast.walk(node):
+        if isinstance(t, ast.Try) and t.orelse and child and any(x is child[0] for s_ in t.orelse for x in ast.walk(s_)):
+            for done, term in _stmt_paths(t.orelse):
+                pushed = any(x is child[0] for d in done for x in ast.walk(d))
+                if not pushed:
+                    bypass = [ast.unparse(d)[:50] for d in done if isinstance(d, ast.expr)]
+    if bypass is not None:
+        rr.fail(
+            "C03-R7|driver|child-bypass",
+            f"{fi.where()}: on the path [{' / '.join(bypass)[:120]}] the driver renders a yielded child itself instead of creating its node wrapper: the child's generator (escaping, `inf` handling, quotes, parenthesisation) is bypassed for that kind of node",
+            where=fi.where(), what="bypass",
+        )
+    else:
+        rr.ok("no-bypass")
     rr.instances += 1
     # the tuple received from the generator
     recv = None
@@ -812,4 +831,11 @@ def lambda_skeleton_rule(ctx):
     return rr
 
 
-RULES = [("C03-R1", rule_r1), ("C03-R2", rule_r2), ("C03-R3", rule_r3), ("C03-R4", rule_r4), ("C03-R4b", rule_r4b), ("C03-R5", rule_r5), ("C03-R6", rule_r6), ("C03-R7", rule_r7), ("C11-R6", lambda_skeleton_rule)]
+def _fstring_structure(ctx):
+    """The structure of f-strings is part of the round trip (shared with C04)."""
+    from .c04 import rule_r3
+
+    return rule_r3(ctx)
+
+
+RULES = [("C03-R1", rule_r1), ("C03-R2", rule_r2), ("C03-R3", rule_r3), ("C03-R4", rule_r4), ("C03-R4b", rule_r4b), ("C03-R5", rule_r5), ("C03-R6", rule_r6), ("C03-R7", rule_r7), ("C11-R6", lambda_skeleton_rule), ("C04-R3", _fstring_structure)]
